@@ -109,6 +109,51 @@ def reuse_scenarios(T):
     return out
 
 
+def reuse_cancel_scenarios(T):
+    """Cancellation of a query that was written and is still unanswered, and what the connection may be used
+    for afterwards (reuse parts of C09 / C01 / C02 / C07).  Returned by name."""
+    wr = lambda x, c: [{"a": "WriteReq", "x": x, "c": c}, {"a": "WriteRet", "x": x, "c": c, "ok": True}]
+    a_written = [{"a": "Start", "c": 1}, {"a": "Dial", "d": 1}, {"a": "DialRet", "d": 1, "ok": True}] + wr(1, 1)
+    out = {}
+    # C09: A written, cancelled before the reply; B starts before A's late reply: the connection still owes a
+    # reply, B must get another connection (never 2 unanswered queries on one connection)
+    out["cancel-then-next-before-late-reply"] = {
+        "origin": "scenario",
+        "steps": a_written + [{"a": "Cancel", "c": 1}, {"a": "Return", "c": 1}, {"a": "Start", "c": 2}, {"a": "Dial", "d": 2},
+                              {"a": "DialRet", "d": 2, "ok": True}] + wr(2, 2) + [
+            {"a": "ReadRet", "x": 2, "k": "reply", "c": 2}, {"a": "Return", "c": 2},
+            {"a": "ReadRet", "x": 1, "k": "reply", "c": 1}]}
+    # C01: the late reply to the cancelled query arrives, the connection goes back to the pool, the next query
+    # reuses it and must get ITS reply
+    out["late-reply-then-reuse"] = {
+        "origin": "scenario",
+        "steps": a_written + [{"a": "Cancel", "c": 1}, {"a": "Return", "c": 1}, {"a": "ReadRet", "x": 1, "k": "reply", "c": 1},
+                              {"a": "Sleep", "ms": 5}, {"a": "Start", "c": 2}] + wr(1, 2) + [
+            {"a": "ReadRet", "x": 1, "k": "reply", "c": 2}, {"a": "Return", "c": 2},
+            {"a": "Start", "c": 3}] + wr(1, 3) + [{"a": "ReadRet", "x": 1, "k": "reply", "c": 3}, {"a": "Return", "c": 3}]}
+    # C02: A's reply arrives while A is still inside Write; the connection goes idle and is reused by B; A is
+    # cancelled and its select may pick ctx.Done (Go decides: repeated); B's reply then arrives in time
+    out["early-reply-reuse-then-cancel"] = {
+        "origin": "scenario", "repeat": 100 if T else 16,
+        "steps": [{"a": "Start", "c": 1}, {"a": "Dial", "d": 1}, {"a": "DialRet", "d": 1, "ok": True},
+                  {"a": "WriteReq", "x": 1, "c": 1}, {"a": "ReadRet", "x": 1, "k": "reply", "c": 1}, {"a": "Sleep", "ms": 2},
+                  {"a": "Start", "c": 2}] + wr(1, 2) + [
+            {"a": "Cancel", "c": 1}, {"a": "WriteRet", "x": 1, "c": 1, "ok": True}, {"a": "Return", "c": 1},
+            {"a": "ReadRet", "x": 1, "k": "reply", "c": 2}, {"a": "Return", "c": 2}]}
+    # C07: readLoop's SetReadDeadline(idle) is held; a connection must not be usable by the next exchange before
+    # that call has returned (else the idle deadline overwrites the 6 s query deadline); then silence
+    out["idle-deadline-held"] = {
+        "origin": "scenario", "repeat": 2,
+        "steps": a_written + [{"a": "HoldSRD", "n": 1}, {"a": "ReadRet", "x": 1, "k": "reply", "c": 1}, {"a": "AwaitHeldSRD"},
+                              {"a": "Sleep", "ms": 20}, {"a": "Start", "c": 2}, {"a": "Dial", "d": 2},
+                              {"a": "DialRet", "d": 2, "ok": True}] + wr(2, 2) + [
+            {"a": "ReleaseSRD"}, {"a": "Return", "c": 1},
+            {"a": "ReadRet", "x": 2, "k": "timeout", "armed": "query"}]}
+    for k, v in out.items():
+        v["name"] = k
+    return out
+
+
 def reuse_lifecycle_scenarios(T):
     out = []
     # transport Close racing a connection failure (TLC counterexample of ReuseConn_nv_lock.cfg): Close holds
@@ -236,7 +281,25 @@ def shape(mode, rec, info):
             if c == 6:
                 return "%s:call-after-close:%s" % (mode, ev.get("res"))
             return "%s:failed-after-%d-writes:%s" % (mode, nwrites, ev.get("res"))
+        if ev.get("vc") not in (None, c):
+            return "%s:foreign-reply-returned" % mode
         return "%s:success-not-explained:writes=%d:dials=%d" % (mode, nwrites, ndial)
+    if mode == "reuse" and ev.get("ev") == "CloseReq" and info.get("line_in_trace", 0) >= 2:
+        prev = [e for e in evs[:info["line_in_trace"] - 1] if e.get("x") == ev.get("x")]
+        if prev and prev[-1]["ev"] == "ReadRet" and prev[-1].get("k") == "reply":
+            return "reuse:reply-dropped-as-unexpected-response:conn-closed"
+    if mode == "reuse" and ev.get("ev") in ("SetDeadline", "WriteReq") and info.get("line_in_trace"):
+        # the harness server's count of unanswered queries on that connection (writes seen minus replies sent)
+        x, owed = ev.get("x"), 0
+        for e in evs[:info["line_in_trace"] - 1]:
+            if e.get("x") == x and e["ev"] == "WriteRet" and e.get("ok"):
+                owed += 1
+            elif e.get("x") == x and e["ev"] == "ReadRet" and e.get("k") == "reply":
+                owed -= 1
+            elif e.get("x") == x and e["ev"] == "CloseReq":
+                owed = 0
+        if owed >= 1:
+            return "reuse:second-query-on-connection-with-unanswered-query"
     return "%s:unexplained-%s%s" % (mode, ev.get("ev"), (":" + str(ev.get("k") or ev.get("r") or "")) if ev else "")
 
 
@@ -247,9 +310,22 @@ def run_scripts(ctx, mode, scripts, binary=None, label=None, trace_cfg=None, tim
         binary = vlib.go_build(ctx, "drv_pool")
     job = {"mode": mode, "scripts": [{k: v for k, v in s.items() if k not in ("expected", "origin", "repeat", "stale", "slow")}
                                       for s in scripts]}
-    recs, stderr = vlib.run_driver(ctx, binary, stdin_obj=job, timeout=timeout)
+    # exit code 2 = the Go runtime died of a panic: a panic raised by the code under test in one of ITS OWN goroutines
+    # (readLoop, dial goroutine) cannot be recovered by the harness; it is a verdict iff the panicking goroutine's
+    # innermost non-runtime frame is in the mosdns module (a panic inside the harness stays an infrastructure error)
+    recs, stderr = vlib.run_driver(ctx, binary, stdin_obj=job, timeout=timeout, ok_codes=(0, 2))
     if len(recs) != len(scripts):
-        raise vlib.Infra("driver returned %d results for %d scripts\n%s" % (len(recs), len(scripts), stderr[-2000:]))
+        crash = code_panic(stderr)
+        if crash is None or len(recs) > len(scripts):
+            raise vlib.Infra("driver returned %d results for %d scripts\n%s" % (len(recs), len(scripts), stderr[-2000:]))
+        sc = scripts[len(recs)]
+        ctx.violation("%s:panic:%s" % (mode, crash[0][:60]),
+                      "the code under test panicked in its own goroutine while script %r ran: %s at %s" % (
+                          sc["name"], crash[0], crash[1]),
+                      {"mode": mode, "script": sc, "trace_cfg": trace_cfg, "panic": crash[0], "frame": crash[1]})
+        log("driver died of a panic of the code under test during script %r (%d of %d scripts finished)" % (
+            sc["name"], len(recs), len(scripts)))
+        scripts = scripts[:len(recs)]
     ran = [r for r in recs if not r.get("skipped")]
     # direct observations of the real code
     for r in ran:
@@ -286,6 +362,33 @@ def run_scripts(ctx, mode, scripts, binary=None, label=None, trace_cfg=None, tim
                       {"mode": mode, "script": sc, "trace_cfg": tcfg, "events": r["events"],
                        "result": {k: v for k, v in r.items() if k != "events"}})
     return recs, rejected
+
+
+def code_panic(stderr):
+    """(message, frame) if the driver's stderr shows a Go panic whose innermost non-runtime frame belongs to the
+    mosdns module, else None."""
+    i = stderr.find("\npanic: ")
+    if i < 0 and stderr.startswith("panic: "):
+        i = -1
+    if i < 0 and not stderr.startswith("panic: "):
+        return None
+    txt = stderr[i + 1:]
+    msg = txt.splitlines()[0][len("panic: "):].strip()
+    j = txt.find("\ngoroutine ")
+    if j < 0:
+        return None
+    for line in txt[j + 1:].splitlines()[1:]:
+        if not line or line.startswith("\t"):
+            if not line:
+                break
+            continue
+        f = line.strip()
+        if f.startswith(("panic(", "runtime.", "created by")):
+            continue
+        if f.startswith("github.com/IrineSistiana/mosdns/v5/pkg/") or f.startswith("github.com/IrineSistiana/mosdns/v5/plugin/"):
+            return msg, f.split("(0x")[0]
+        return None
+    return None
 
 
 def replay(ctx):
